@@ -26,7 +26,8 @@ RULE = ("(model, parameters, small-distance policy, setter history of 0-10 "
         "floor angle +- delta.  Signature = (model, policy, history kinds, "
         "input form, has-small-distance); non-trivial = at least one distance "
         "decided.  "
-        "Queries include exact zero distances (scalar and inside arrays). ")
+        "Queries include exact zero distances (scalar and inside arrays). "
+        "Integer angle arrays also as int16 / int8 / uint8; half of the second queries repeat the distances of the first after the setters. ")
 ASSUMPTIONS = ["shadowing is off (use_shadow_bool False): it is random by design",
                "Okumura-Hata distances may leave [1,20] km (the model only warns)"]
 
@@ -359,6 +360,7 @@ def case_model(ctx, rng, idx):
     nops = int(rng.choice([0, 0, 1, 2, 3, 5, 10]))
     hist = apply_history(ctx, kind, m, p, rng, nops)
     # interleave queries and setters: query, more setters, query again
+    D_first = None
     for rnd in range(2):
         twin = make(kind, dict(p), False)
         kw = {}
@@ -372,6 +374,13 @@ def case_model(ctx, rng, idx):
         d0 = small_threshold(twin, {k: v for k, v in kw.items() if v is not None}
                              if kind != "metis" or walls_kind != "array" else {})
         D = gen_distances(rng, form, d0, kind)
+        if rnd == 1 and D_first is not None and rng.random() < 0.5:
+            # the same distances as before the last setters (per-link queries
+            # repeat the same few distances over a whole simulation)
+            D = D_first.copy() if isinstance(D_first, np.ndarray) else D_first
+            hist = hist + ["same-distances-again"]
+        if rnd == 0:
+            D_first = D.copy() if isinstance(D, np.ndarray) else D
         if kw.get("num_walls", 0) is None:
             shp = np.shape(D)
             if len(shp) >= 2 and rng.random() < 0.6:
@@ -419,7 +428,15 @@ def case_antenna(ctx, rng, idx):
         if form == "2d":
             ang = ang.reshape(4, 6)
         if rng.random() < 0.3:
-            ang = np.rint(ang).astype([np.int64, np.int32][int(rng.integers(0, 2))])   # whole degrees
+            # whole degrees, in whatever integer type the caller stores them
+            # (narrow types: int8 holds +-127 degrees, uint8 only the positive side)
+            t = [np.int64, np.int32, np.int16, np.int8, np.uint8][int(rng.integers(0, 5))]
+            ang = np.rint(ang)
+            if t is np.int8:
+                ang = np.clip(ang, -127, 127)
+            elif t is np.uint8:
+                ang = np.abs(ang)
+            ang = ang.astype(t)
     else:
         v = float(rng.uniform(-180, 180))
         if kind != "omni" and rng.random() < 0.5:
@@ -470,7 +487,10 @@ def case_antenna(ctx, rng, idx):
         ctx.ev("antenna-gain", abs(gs - gm) <= 1e-12 * gs, cls="symmetric",
                detail=d(angle=af[i], plus=gs, minus=gm))
     if isinstance(ang, np.ndarray) and ang.size > 1:
-        gneg = np.asarray(a.get_antenna_gain(-ang), dtype=float).ravel()
+        # (the mirror image is formed by the harness: unsigned angles are
+        #  widened first, -x would wrap)
+        neg = -ang.astype(np.int64) if ang.dtype.kind == "u" else -ang
+        gneg = np.asarray(a.get_antenna_gain(neg), dtype=float).ravel()
         ctx.ev("antenna-gain", bool(np.all(np.abs(gneg - gf) <= 1e-12 * gf)),
                cls="symmetric-array", n=af.size, detail=d())
     ctx.sig("antenna", kind, form)
